@@ -20,7 +20,8 @@ theorem chains_enforce (mode : MTLS) (hm : mode ≠ .unknown) (proto : LProto) :
     ((chains mode proto).any Chain.acceptsPlaintext = true ↔ mode ≠ .strict) ∧
     ((chains mode proto).any Chain.terminatesMTLS = true ↔ mode ≠ .disable) ∧
     ((chains mode proto).any Chain.terminatesOneWayTLS = false) ∧
-    (chains mode proto ≠ []) := by
+    (chains mode proto ≠ []) ∧
+    (mode = .strict → ∀ c ∈ chains mode proto, c.terminatesMTLS = true) := by
   cases mode with
   | unknown => exact absurd rfl hm
   | disable => cases proto <;> decide
@@ -62,22 +63,36 @@ theorem lookup_none_of_not_key {β : Type} {l : List (Nat × β)} {k : Nat} (h :
       simp only [List.lookup_cons, h1]
       exact ih (fun e he => h e (List.mem_cons_of_mem _ he))
 
-/-- Every chain of the listener belongs to the cell (mode of its port, some protocol). -/
-theorem mem_inboundChains {root : String} {ps : List PA} {w : Workload} {svcPorts : List (Nat × LProto)}
-    {c : LChain} (h : c ∈ inboundChains root ps w svcPorts) :
-    ∃ port proto, c.dst = dstOf port ∧
-      c.chain ∈ chains ((compose root ((initAuthn root ps).configsFor w)).modeForPort port) proto ∧
-      (port = 0 ∨ (∃ sp ∈ svcPorts, sp.1 = port) ∨
-        (∃ e ∈ (compose root ((initAuthn root ps).configsFor w)).perPort, e.1 = port)) := by
-  unfold inboundChains at h
-  simp only [List.mem_append, List.mem_flatMap, List.mem_filter] at h
-  rcases h with (⟨sp, hsp, hc⟩ | hc) | ⟨e, ⟨he, _⟩, hc⟩
-  · have := mem_chainsFor.mp hc
-    exact ⟨sp.1, sp.2, this.1, this.2, Or.inr (Or.inl ⟨sp, hsp, rfl⟩)⟩
-  · have := mem_chainsFor.mp hc
-    exact ⟨0, .auto, this.1, this.2, Or.inl rfl⟩
-  · have := mem_chainsFor.mp hc
-    exact ⟨e.1, .auto, this.1, this.2, Or.inr (Or.inr ⟨e, he, rfl⟩)⟩
+/-- A chain config without user TLS (or whose mode is not DISABLE) yields the regular cell. -/
+theorem entryChains_regular {m : Merged} {sp : SvcPort} (h : sp.userTLS = false) :
+    entryChains m sp = chainsFor m sp.target sp.proto := by
+  simp [entryChains, h]
+
+/-- Membership in the three parts of the listener. -/
+theorem mem_inboundChains_iff {root : String} {ps : List PA} {w : Workload} {svcPorts : List SvcPort} {c : LChain} :
+    c ∈ inboundChains root ps w svcPorts ↔
+      (∃ sp ∈ svcPorts, c ∈ entryChains (compose root ((initAuthn root ps).configsFor w)) sp) ∨
+      c ∈ chainsFor (compose root ((initAuthn root ps).configsFor w)) 0 .auto ∨
+      (∃ e ∈ (compose root ((initAuthn root ps).configsFor w)).perPort,
+        needPerPort svcPorts e.1 = true ∧ c ∈ chainsFor (compose root ((initAuthn root ps).configsFor w)) e.1 .auto) := by
+  unfold inboundChains
+  simp only [List.mem_append, List.mem_flatMap, List.mem_filter]
+  constructor
+  · rintro ((h | h) | ⟨e, ⟨he, hn⟩, hc⟩)
+    · exact Or.inl h
+    · exact Or.inr (Or.inl h)
+    · exact Or.inr (Or.inr ⟨e, he, hn, hc⟩)
+  · rintro (h | h | ⟨e, he, hn, hc⟩)
+    · exact Or.inl (Or.inl h)
+    · exact Or.inl (Or.inr h)
+    · exact Or.inr ⟨e, ⟨he, hn⟩, hc⟩
+
+theorem entryChains_dst {m : Merged} {sp : SvcPort} {c : LChain} (h : c ∈ entryChains m sp) :
+    c.dst = dstOf sp.target := by
+  unfold entryChains at h
+  split at h
+  · simp only [List.mem_singleton] at h; rw [h]
+  · exact (mem_chainsFor.mp h).1
 
 /-- No policy carries a port-level entry for port 0 (rejected by validation: ports are 1..65535). -/
 def NoPortZero (ps : List PA) : Prop := ∀ p ∈ ps, p.ports.lookup 0 = none
@@ -99,165 +114,166 @@ theorem merged_lookup_zero {ps : List PA} (hz : NoPortZero ps) (root : String) (
         exact mem_sorted.mp (List.mem_of_find?_eq_some hw)
     simp only [lookup_map_portEntry, hz p hp, Option.map_none]
 
-/-- **inbound_listener_enforces.**  For every destination port `d` of the sidecar (service port or not),
-    the filter chains of the generated virtualInbound listener that Envoy selects for `d` enforce
-    `effectiveMode d`: plaintext is admitted iff the mode is not STRICT, Istio mutual TLS is
-    terminated iff the mode is not DISABLE, and TLS is never terminated without a client certificate. -/
+/-- The chain configs relevant for destination port `d` (and for the catch-all) carry no user TLS
+    settings.  Ports with user TLS are covered by `inbound_user_tls_only_under_disable`. -/
+def NoUserTLSFor (svcPorts : List SvcPort) (d : Nat) : Prop :=
+  ∀ sp ∈ svcPorts, sp.userTLS = true → sp.target ≠ d ∧ sp.target ≠ 0
+
+instance (svcPorts : List SvcPort) (d : Nat) : Decidable (NoUserTLSFor svcPorts d) := by
+  unfold NoUserTLSFor; infer_instance
+
+/-- **inbound_listener_enforces.**  For every destination port `d` of the sidecar - target port of a
+    service (whatever the service port), Sidecar ingress port, or neither; with or without port-level
+    setting - the filter chains of the generated virtualInbound listener that Envoy selects for `d`
+    enforce `effectiveMode d`: plaintext is admitted iff the mode is not STRICT, Istio mutual TLS is
+    terminated iff the mode is not DISABLE, TLS is never terminated without a client certificate, and
+    under STRICT **every** selected chain terminates mutual TLS (no plaintext chain, no TLS pass-through). -/
 theorem inbound_listener_enforces {ps : List PA} (hu : UniqueKeys ps) (hz : NoPortZero ps) (root : String)
-    (w : Workload) (hs : w.svcNs = []) (svcPorts : List (Nat × LProto)) (d : Nat) (hd : d > 0) :
+    (w : Workload) (hs : w.svcNs = []) (svcPorts : List SvcPort) (d : Nat) (hd : d > 0)
+    (hU : NoUserTLSFor svcPorts d) :
     let cs := applicable (inboundChains root ps w svcPorts) d
     (cs.any Chain.acceptsPlaintext = true ↔ effectiveMode ps root w d ≠ .strict) ∧
     (cs.any Chain.terminatesMTLS = true ↔ effectiveMode ps root w d ≠ .disable) ∧
-    (cs.any Chain.terminatesOneWayTLS = false) := by
+    (cs.any Chain.terminatesOneWayTLS = false) ∧
+    (effectiveMode ps root w d = .strict → ∀ c ∈ cs, c.terminatesMTLS = true) := by
   intro cs
   have hmode : ∀ port, (compose root ((initAuthn root ps).configsFor w)).modeForPort port =
       effectiveMode ps root w port := fun port => compose_eq_spec hu root w hs port
   have hzero := merged_lookup_zero hz root w hs
-  generalize hM : compose root ((initAuthn root ps).configsFor w) = m at hmode hzero
+  have hmem : ∀ c, c ∈ inboundChains root ps w svcPorts ↔ _ := fun c => mem_inboundChains_iff (c := c)
+  generalize hM : compose root ((initAuthn root ps).configsFor w) = m at hmode hzero hmem
   have hne := effectiveMode_total ps root w d
-  -- (1) every selected chain lies in a cell of mode `effectiveMode d`
-  -- (2) some whole cell of that mode is selected
+  have hcell : ∀ proto, chains (m.modeForPort d) proto ≠ [] := fun proto =>
+    (chains_enforce (m.modeForPort d) (by rw [hmode]; exact hne) proto).2.2.2.1
+  -- every chain whose destination port is `d` lies in a cell of mode `effectiveMode d`
+  have hspecific : ∀ lc ∈ inboundChains root ps w svcPorts, lc.dst = some d →
+      ∃ proto, lc.chain ∈ chains (effectiveMode ps root w d) proto := by
+    intro lc hlc hdst
+    rcases (hmem lc).mp hlc with ⟨sp, hsp, hc⟩ | hc | ⟨e, _, _, hc⟩
+    · have htd : sp.target = d := (dstOf_eq_some hd).mp ((entryChains_dst hc) ▸ hdst)
+      have hut : sp.userTLS = false := by
+        cases h : sp.userTLS with
+        | false => rfl
+        | true => exact absurd htd (hU sp hsp h).1
+      rw [entryChains_regular hut] at hc
+      have := (mem_chainsFor.mp hc).2
+      rw [htd, hmode] at this
+      exact ⟨sp.proto, this⟩
+    · have := mem_chainsFor.mp hc
+      have h0 : (0 : Nat) = d := (dstOf_eq_some hd).mp (this.1 ▸ hdst)
+      omega
+    · have := mem_chainsFor.mp hc
+      have hed : e.1 = d := (dstOf_eq_some hd).mp (this.1 ▸ hdst)
+      have h2 := this.2
+      rw [hed, hmode] at h2
+      exact ⟨.auto, h2⟩
+  -- if no chain has destination port `d`: `d` is no target port and has no port-level setting
+  have hnone : ((inboundChains root ps w svcPorts).filter (fun c => c.dst == some d)).isEmpty = true →
+      m.modeForPort 0 = effectiveMode ps root w d := by
+    intro hsp
+    have hspec : ∀ x ∈ inboundChains root ps w svcPorts, ¬ (x.dst == some d) = true :=
+      List.filter_eq_nil_iff.mp (List.isEmpty_iff.mp hsp)
+    have hd_none : m.perPort.lookup d = none := by
+      apply lookup_none_of_not_key
+      intro e he hed
+      by_cases hsvc : needPerPort svcPorts d = true
+      · obtain ⟨ch, hchm⟩ := List.exists_mem_of_ne_nil _ (hcell .auto)
+        have hx : ({ dst := dstOf d, chain := ch } : LChain) ∈ inboundChains root ps w svcPorts :=
+          (hmem _).mpr (Or.inr (Or.inr ⟨e, he, by rw [hed]; exact hsvc, by rw [hed]; exact mem_chainsFor.mpr ⟨rfl, hchm⟩⟩))
+        exact hspec _ hx (by simp [(dstOf_eq_some hd).mpr rfl])
+      · have hany : svcPorts.any (fun sp => sp.target == d) = true := by
+          unfold needPerPort at hsvc
+          cases h : svcPorts.any (fun sp => sp.target == d) <;> simp_all
+        obtain ⟨sp, hspm, hspd'⟩ := List.any_eq_true.mp hany
+        have hspd : sp.target = d := by simpa using hspd'
+        have hut : sp.userTLS = false := by
+          cases h : sp.userTLS with
+          | false => rfl
+          | true => exact absurd hspd (hU sp hspm h).1
+        obtain ⟨ch, hchm⟩ := List.exists_mem_of_ne_nil _ (hcell sp.proto)
+        have hx : ({ dst := dstOf d, chain := ch } : LChain) ∈ inboundChains root ps w svcPorts :=
+          (hmem _).mpr (Or.inl ⟨sp, hspm, by
+            rw [entryChains_regular hut, hspd]; exact mem_chainsFor.mpr ⟨rfl, hchm⟩⟩)
+        exact hspec _ hx (by simp [(dstOf_eq_some hd).mpr rfl])
+    have e0 : m.modeForPort 0 = m.mode := by simp [Merged.modeForPort, hzero]
+    have ed : m.modeForPort d = m.mode := by simp [Merged.modeForPort, hd_none]
+    rw [e0, ← ed, hmode]
+  -- (1) soundness: every selected chain lies in a cell of mode `effectiveMode d`
   have hsound : ∀ c ∈ cs, ∃ proto, c ∈ chains (effectiveMode ps root w d) proto := by
     intro c hc
     simp only [cs, applicable, List.mem_map] at hc
     obtain ⟨lc, hlc, rfl⟩ := hc
     by_cases hsp : ((inboundChains root ps w svcPorts).filter (fun c => c.dst == some d)).isEmpty = true
-    · -- catch-all chains: port 0, and `d` has no chain of its own
-      simp only [hsp, if_true, List.mem_filter, beq_iff_eq] at hlc
-      obtain ⟨port, proto, hdst, hch, _⟩ := mem_inboundChains hlc.1
-      rw [hM] at hch
-      have hp0 : port = 0 := dstOf_eq_none.mp (hdst ▸ hlc.2)
-      refine ⟨proto, ?_⟩
-      rw [hp0] at hch
-      -- mode for port 0 = workload mode = mode for d
-      have hd_none : m.perPort.lookup d = none := by
-        apply lookup_none_of_not_key
-        intro e he hed
-        -- otherwise a per-port passthrough or service chain for d would exist
-        have hspec : ∀ x ∈ inboundChains root ps w svcPorts, ¬ (x.dst == some d) = true := by
-          have := List.filter_eq_nil_iff.mp (List.isEmpty_iff.mp hsp)
-          exact this
-        by_cases hsvc : needPerPort svcPorts d = true
-        · obtain ⟨ch, hchm⟩ := List.exists_mem_of_ne_nil _ (chains_enforce (m.modeForPort d) (by rw [hmode]; exact hne) .auto).2.2.2
-          have hx : ({ dst := dstOf d, chain := ch } : LChain) ∈ inboundChains root ps w svcPorts := by
-            unfold inboundChains
-            rw [hM]
-            simp only [List.mem_append, List.mem_flatMap, List.mem_filter]
-            right
-            exact ⟨e, ⟨he, by rw [hed]; exact hsvc⟩, by rw [hed]; exact mem_chainsFor.mpr ⟨rfl, hchm⟩⟩
-          exact hspec _ hx (by simp [(dstOf_eq_some hd).mpr rfl])
-        · have hany : svcPorts.any (fun sp => sp.1 == d) = true := by
-            unfold needPerPort at hsvc
-            cases h : svcPorts.any (fun sp => sp.1 == d) <;> simp_all
-          obtain ⟨sp, hspm, hspd'⟩ := List.any_eq_true.mp hany
-          have hspd : sp.1 = d := by simpa using hspd'
-          obtain ⟨ch, hchm⟩ := List.exists_mem_of_ne_nil _ (chains_enforce (m.modeForPort d) (by rw [hmode]; exact hne) sp.2).2.2.2
-          have hx : ({ dst := dstOf d, chain := ch } : LChain) ∈ inboundChains root ps w svcPorts := by
-            unfold inboundChains
-            rw [hM]
-            simp only [List.mem_append, List.mem_flatMap]
-            left; left
-            exact ⟨sp, hspm, by rw [hspd]; exact mem_chainsFor.mpr ⟨rfl, hchm⟩⟩
-          exact hspec _ hx (by simp [(dstOf_eq_some hd).mpr rfl])
-      have e0 : m.modeForPort 0 = m.mode := by simp [Merged.modeForPort, hzero]
-      have ed : m.modeForPort d = m.mode := by simp [Merged.modeForPort, hd_none]
-      rw [e0, ← ed, hmode] at hch
-      exact hch
+    · simp only [hsp, if_true, List.mem_filter, beq_iff_eq] at hlc
+      have h0 := hnone hsp
+      rcases (hmem lc).mp hlc.1 with ⟨sp, hspm, hc⟩ | hc | ⟨e, he, _, hc⟩
+      · have ht0 : sp.target = 0 := dstOf_eq_none.mp ((entryChains_dst hc) ▸ hlc.2)
+        have hut : sp.userTLS = false := by
+          cases h : sp.userTLS with
+          | false => rfl
+          | true => exact absurd ht0 (hU sp hspm h).2
+        rw [entryChains_regular hut] at hc
+        have := (mem_chainsFor.mp hc).2
+        rw [ht0, h0] at this
+        exact ⟨sp.proto, this⟩
+      · have := (mem_chainsFor.mp hc).2
+        rw [h0] at this
+        exact ⟨.auto, this⟩
+      · have hm := mem_chainsFor.mp hc
+        have he0 : e.1 = 0 := dstOf_eq_none.mp (hm.1 ▸ hlc.2)
+        have := hm.2
+        rw [he0, h0] at this
+        exact ⟨.auto, this⟩
     · simp only [hsp, Bool.false_eq_true, if_false, List.mem_filter, beq_iff_eq] at hlc
-      obtain ⟨port, proto, hdst, hch, _⟩ := mem_inboundChains hlc.1
-      rw [hM] at hch
-      have hpd : port = d := (dstOf_eq_some hd).mp (hdst ▸ hlc.2)
-      rw [hpd, hmode] at hch
-      exact ⟨proto, hch⟩
+      exact hspecific lc hlc.1 hlc.2
+  -- (2) completeness: some whole cell of that mode is selected
   have hcomplete : ∃ proto, ∀ c ∈ chains (effectiveMode ps root w d) proto, c ∈ cs := by
     by_cases hsp : ((inboundChains root ps w svcPorts).filter (fun c => c.dst == some d)).isEmpty = true
-    · -- the catch-all cell (port 0, auto)
-      refine ⟨.auto, ?_⟩
+    · refine ⟨.auto, ?_⟩
       intro c hc
       simp only [cs, applicable, hsp, if_true, List.mem_map, List.mem_filter, beq_iff_eq]
-      -- as above: mode for port 0 = mode for d
-      have hd_none : m.perPort.lookup d = none := by
-        apply lookup_none_of_not_key
-        intro e he hed
-        have hspec : ∀ x ∈ inboundChains root ps w svcPorts, ¬ (x.dst == some d) = true :=
-          List.filter_eq_nil_iff.mp (List.isEmpty_iff.mp hsp)
-        by_cases hsvc : needPerPort svcPorts d = true
-        · obtain ⟨ch, hchm⟩ := List.exists_mem_of_ne_nil _ (chains_enforce (m.modeForPort d) (by rw [hmode]; exact hne) .auto).2.2.2
-          have hx : ({ dst := dstOf d, chain := ch } : LChain) ∈ inboundChains root ps w svcPorts := by
-            unfold inboundChains
-            rw [hM]
-            simp only [List.mem_append, List.mem_flatMap, List.mem_filter]
-            right
-            exact ⟨e, ⟨he, by rw [hed]; exact hsvc⟩, by rw [hed]; exact mem_chainsFor.mpr ⟨rfl, hchm⟩⟩
-          exact hspec _ hx (by simp [(dstOf_eq_some hd).mpr rfl])
-        · have hany : svcPorts.any (fun sp => sp.1 == d) = true := by
-            unfold needPerPort at hsvc
-            cases h : svcPorts.any (fun sp => sp.1 == d) <;> simp_all
-          obtain ⟨sp, hspm, hspd'⟩ := List.any_eq_true.mp hany
-          have hspd : sp.1 = d := by simpa using hspd'
-          obtain ⟨ch, hchm⟩ := List.exists_mem_of_ne_nil _ (chains_enforce (m.modeForPort d) (by rw [hmode]; exact hne) sp.2).2.2.2
-          have hx : ({ dst := dstOf d, chain := ch } : LChain) ∈ inboundChains root ps w svcPorts := by
-            unfold inboundChains
-            rw [hM]
-            simp only [List.mem_append, List.mem_flatMap]
-            left; left
-            exact ⟨sp, hspm, by rw [hspd]; exact mem_chainsFor.mpr ⟨rfl, hchm⟩⟩
-          exact hspec _ hx (by simp [(dstOf_eq_some hd).mpr rfl])
-      have e0 : m.modeForPort 0 = m.mode := by simp [Merged.modeForPort, hzero]
-      have ed : m.modeForPort d = m.mode := by simp [Merged.modeForPort, hd_none]
       refine ⟨{ dst := none, chain := c }, ⟨?_, rfl⟩, rfl⟩
-      unfold inboundChains
-      rw [hM]
-      simp only [List.mem_append, List.mem_flatMap]
-      left; right
+      apply (hmem _).mpr
+      right; left
       apply mem_chainsFor.mpr
       refine ⟨by simp [dstOf], ?_⟩
-      rw [e0, ← ed, hmode]
+      rw [hnone hsp]
       exact hc
-    · -- some chain for d exists: take its whole cell
-      have hnil : (inboundChains root ps w svcPorts).filter (fun c => c.dst == some d) ≠ [] := by
+    · have hnil : (inboundChains root ps w svcPorts).filter (fun c => c.dst == some d) ≠ [] := by
         intro h; exact hsp (by simp [h])
       obtain ⟨lc, hlc⟩ := List.exists_mem_of_ne_nil _ hnil
       simp only [List.mem_filter, beq_iff_eq] at hlc
-      -- which generator produced it
-      have hmem := hlc.1
-      unfold inboundChains at hmem
-      rw [hM] at hmem
-      simp only [List.mem_append, List.mem_flatMap, List.mem_filter] at hmem
-      have key : ∀ (port : Nat) (proto : LProto), lc ∈ chainsFor m port proto →
+      have key : ∀ (port : Nat) (proto : LProto), lc.dst = dstOf port →
           (∀ ch ∈ chains (m.modeForPort port) proto,
             ({ dst := dstOf port, chain := ch } : LChain) ∈ inboundChains root ps w svcPorts) →
           ∃ proto, ∀ c ∈ chains (effectiveMode ps root w d) proto, c ∈ cs := by
-        intro port proto hin hall
-        have hpd : port = d := (dstOf_eq_some hd).mp ((mem_chainsFor.mp hin).1 ▸ hlc.2)
+        intro port proto hdst hall
+        have hpd : port = d := (dstOf_eq_some hd).mp (hdst ▸ hlc.2)
         refine ⟨proto, ?_⟩
         intro c hc
         simp only [cs, applicable, hsp, Bool.false_eq_true, if_false, List.mem_map, List.mem_filter, beq_iff_eq]
         refine ⟨{ dst := dstOf port, chain := c }, ⟨?_, ?_⟩, rfl⟩
         · apply hall; rw [hpd, hmode]; exact hc
         · rw [hpd]; exact (dstOf_eq_some hd).mpr rfl
-      rcases hmem with (⟨sp, hspm, hc⟩ | hc) | ⟨e, ⟨he, hneed⟩, hc⟩
-      · apply key sp.1 sp.2 hc
+      rcases (hmem lc).mp hlc.1 with ⟨sp, hspm, hc⟩ | hc | ⟨e, he, hneed, hc⟩
+      · have hdst := entryChains_dst hc
+        have htd : sp.target = d := (dstOf_eq_some hd).mp (hdst ▸ hlc.2)
+        have hut : sp.userTLS = false := by
+          cases h : sp.userTLS with
+          | false => rfl
+          | true => exact absurd htd (hU sp hspm h).1
+        apply key sp.target sp.proto hdst
         intro ch hch
-        unfold inboundChains; rw [hM]
-        simp only [List.mem_append, List.mem_flatMap]
-        left; left
-        exact ⟨sp, hspm, mem_chainsFor.mpr ⟨rfl, hch⟩⟩
-      · apply key 0 .auto hc
+        exact (hmem _).mpr (Or.inl ⟨sp, hspm, by rw [entryChains_regular hut]; exact mem_chainsFor.mpr ⟨rfl, hch⟩⟩)
+      · apply key 0 .auto (mem_chainsFor.mp hc).1
         intro ch hch
-        unfold inboundChains; rw [hM]
-        simp only [List.mem_append, List.mem_flatMap]
-        left; right
-        exact mem_chainsFor.mpr ⟨rfl, hch⟩
-      · apply key e.1 .auto hc
+        exact (hmem _).mpr (Or.inr (Or.inl (mem_chainsFor.mpr ⟨rfl, hch⟩)))
+      · apply key e.1 .auto (mem_chainsFor.mp hc).1
         intro ch hch
-        unfold inboundChains; rw [hM]
-        simp only [List.mem_append, List.mem_flatMap, List.mem_filter]
-        right
-        exact ⟨e, ⟨he, hneed⟩, mem_chainsFor.mpr ⟨rfl, hch⟩⟩
+        exact (hmem _).mpr (Or.inr (Or.inr ⟨e, he, hneed, mem_chainsFor.mpr ⟨rfl, hch⟩⟩))
   -- conclude from the cell facts
   obtain ⟨proto0, hall⟩ := hcomplete
-  refine ⟨?_, ?_, ?_⟩
+  refine ⟨?_, ?_, ?_, ?_⟩
   · constructor
     · intro h
       obtain ⟨c, hc, hp⟩ := List.any_eq_true.mp h
@@ -280,11 +296,53 @@ theorem inbound_listener_enforces {ps : List PA} (hu : UniqueKeys ps) (hz : NoPo
     have := (chains_enforce _ hne proto).2.2.1
     rw [List.any_eq_false] at this
     exact this c hcm
+  · intro hstrict c hc
+    obtain ⟨proto, hcm⟩ := hsound c hc
+    exact (chains_enforce _ hne proto).2.2.2.2 hstrict c hcm
+
+/-- **User TLS on a Sidecar ingress listener is the only one-way TLS termination, and only under
+    DISABLE.**  Every chain of the listener that terminates TLS without requiring a client certificate
+    belongs to a chain config with user TLS settings whose port's effective mode is DISABLE. -/
+theorem inbound_user_tls_only_under_disable {ps : List PA} (hu : UniqueKeys ps) (root : String)
+    (w : Workload) (hs : w.svcNs = []) (svcPorts : List SvcPort) (c : LChain)
+    (hc : c ∈ inboundChains root ps w svcPorts) (h1 : c.chain.terminatesOneWayTLS = true) :
+    ∃ sp ∈ svcPorts, sp.userTLS = true ∧ c.dst = dstOf sp.target ∧
+      effectiveMode ps root w sp.target = .disable := by
+  have hmode : ∀ port, (compose root ((initAuthn root ps).configsFor w)).modeForPort port =
+      effectiveMode ps root w port := fun port => compose_eq_spec hu root w hs port
+  have hreg : ∀ (port : Nat) (proto : LProto),
+      c ∈ chainsFor (compose root ((initAuthn root ps).configsFor w)) port proto → False := by
+    intro port proto hin
+    have hm := (mem_chainsFor.mp hin).2
+    have := inbound_never_one_way_tls _ proto c.chain hm
+    rw [h1] at this; cases this
+  rcases mem_inboundChains_iff.mp hc with ⟨sp, hsp, hin⟩ | hin | ⟨e, _, _, hin⟩
+  · unfold entryChains at hin
+    split at hin
+    · rename_i hcond
+      simp only [Bool.and_eq_true, beq_iff_eq] at hcond
+      simp only [List.mem_singleton] at hin
+      refine ⟨sp, hsp, hcond.1, by rw [hin], ?_⟩
+      rw [← hmode]; exact hcond.2
+    · exact absurd (hreg _ _ hin) id
+  · exact absurd (hreg _ _ hin) id
+  · exact absurd (hreg _ _ hin) id
 
 /-! ## Non-vacuity -/
 
-example : NoPortZero exPolicies ∧ UniqueKeys exPolicies := by decide
-/-- A non-service port (9000) without chain of its own uses the catch-all chains. -/
-example : applicable ([] : List LChain) 9000 = [] := rfl
+/-- The fixture of the `inbound` stream: a service whose port (81) differs from its target port (8081). -/
+def exSvcPorts : List SvcPort :=
+  [ { port := 80, target := 80, proto := .http }, { port := 8080, target := 8080, proto := .tcp },
+    { port := 9090, target := 9090, proto := .auto }, { port := 81, target := 8081, proto := .http } ]
+
+example : NoPortZero exPolicies ∧ UniqueKeys exPolicies ∧ NoUserTLSFor exSvcPorts 80 := by decide
+/-- `exPolicies`: port 80 of `exWorkload` is DISABLE (port-level entry of wl1): plaintext admitted, no mTLS. -/
+example : (applicable (inboundChains "istio-system" exPolicies exWorkload exSvcPorts) 80).any Chain.acceptsPlaintext = true :=
+  (inbound_listener_enforces (by decide) (by decide) "istio-system" exWorkload rfl exSvcPorts 80 (by decide) (by decide)).1.mpr
+    (by decide)
+/-- port 8081 (target port of service port 81, no port-level entry) is STRICT: every selected chain terminates mTLS. -/
+example : ∀ c ∈ applicable (inboundChains "istio-system" exPolicies exWorkload exSvcPorts) 8081, c.terminatesMTLS = true :=
+  (inbound_listener_enforces (by decide) (by decide) "istio-system" exWorkload rfl exSvcPorts 8081 (by decide) (by decide)).2.2.2
+    (by decide)
 
 end IstioModel.C10
